@@ -226,12 +226,37 @@ def anchored_hashes(prop):
     return out
 
 
+def library_hashes():
+    """sha256 of ast.dump of EVERY source file of the library (src/ndn/**/*.py): the anchored code calls helpers all over the
+    package (encoding, utils, types, transport, security, platform), and a change there can break a property as well"""
+    import ast
+    out = {}
+    base = os.path.join(REPO, 'src', 'ndn')
+    for dd, _, fs in os.walk(base):
+        for x in sorted(fs):
+            if x.endswith('.py'):
+                path = os.path.join(dd, x)
+                try:
+                    out[os.path.relpath(path, REPO)] = hashlib.sha256(ast.dump(ast.parse(open(path).read())).encode()).hexdigest()
+                except (SyntaxError, ValueError):
+                    out[os.path.relpath(path, REPO)] = 'syntax-error'
+    return out
+
+
 def drift(prop):
-    """files whose AST differs from the one the model was last validated against (harness/ast_hashes.json)"""
+    """files whose AST differs from the one the model was last validated against (harness/ast_hashes.json): the files the
+    property is anchored in, and (key '_library') every other file of the package - a file that appeared or disappeared
+    counts as changed"""
     p = os.path.join(ROOT, 'harness', 'ast_hashes.json')
-    rec = json.load(open(p)).get(prop, {}) if os.path.exists(p) else {}
+    allrec = json.load(open(p)) if os.path.exists(p) else {}
+    rec = allrec.get(prop, {})
     cur = anchored_hashes(prop)
-    return sorted(f for f in cur if rec.get(f) != cur[f])
+    out = set(f for f in cur if rec.get(f) != cur[f])
+    lrec = allrec.get('_library')
+    if lrec is not None:
+        lcur = library_hashes()
+        out |= set(f for f in set(lcur) | set(lrec) if lrec.get(f) != lcur.get(f))
+    return sorted(out)
 
 
 def jdump(o):
@@ -327,7 +352,7 @@ def _check(prop, tier, replay):
     drifted = [] if os.environ.get('VERIF_NO_DRIFT') else drift(prop)
     search_mode = proof_broken or not ok or bool(drifted)
     if drifted:
-        print(f'note: anchored source changed since the model was last validated ({len(drifted)} file(s): {drifted[:3]}); searching harder')
+        print(f'note: library source changed since the model was last validated ({len(drifted)} file(s): {drifted[:3]}); searching harder')
     eff_tier = 'thorough' if (search_mode and tier == 'quick') else tier
     cases = []
     corpus_dir = os.path.join(ROOT, 'corpus', prop)
